@@ -100,7 +100,7 @@ def effective_known(j, known):
     renamed = {}
     cur = {}
     for f in j.get('fns', []):
-        cur.setdefault(strip_crate(f['path']), {'sig': f.get('sig'), 'parent': strip_crate(f.get('parent') or '')})
+        cur.setdefault(strip_crate(f['path']), {'sig': f.get('sig'), 'parent': strip_crate(f.get('parent') or ''), 'file': (f.get('span') or '').split(':')[0]})
     missing = [k for k in known if k not in cur and known[k].get('sig')]
     used = set()
     for path, info in sorted(cur.items()):
@@ -114,6 +114,17 @@ def effective_known(j, known):
                 eff.add(path)
                 renamed[m] = path
                 break
+    # second chance: a free function turned into an associated function / method of a type of the same file (or
+    # back): same source file, same signature, and the only candidate on both sides
+    for path, info in sorted(cur.items()):
+        if path in eff or not info.get('sig') or not info.get('file'):
+            continue
+        ms = [m for m in missing if m not in used and known[m].get('file') == info['file'] and known[m]['sig'] == info['sig']]
+        others = [p2 for p2, i2 in cur.items() if p2 not in eff and p2 != path and i2.get('file') == info['file'] and i2.get('sig') == info['sig']]
+        if len(ms) == 1 and not others:
+            used.add(ms[0])
+            eff.add(path)
+            renamed[ms[0]] = path
     return eff, renamed
 
 
@@ -181,6 +192,38 @@ def _shift_block(blk, off_l, off_b):
         _shift_op(t['cond'], off_l)
 
 
+def _borrowed_place(body, l, depth=0):
+    """If local l is (a move/reborrow chain of) `&[mut] P` with a single definition, the place P (else None)."""
+    if depth > 6:
+        return None
+    defs = []
+    for blk in body['blocks']:
+        if blk.get('cleanup'):
+            continue
+        for s_ in blk['stmts']:
+            if s_.get('k') == 'assign' and s_['place']['l'] == l and not s_['place']['p']:
+                defs.append(s_)
+        t = blk['term']
+        if t['k'] == 'call' and t.get('dest') is not None and t['dest']['l'] == l:
+            return None
+    if len(defs) != 1 or l <= body.get('arg_count', 0):
+        return None
+    rv = defs[0]['rv']
+    if rv['k'] == 'ref':
+        pl = rv['place']
+        # a reborrow `&mut *x` of another borrowed local: follow it
+        if pl['p'] and pl['p'][0]['k'] == 'deref' and len(pl['p']) == 1:
+            inner = _borrowed_place(body, pl['l'], depth + 1)
+            if inner is not None:
+                return inner
+        if any(e['k'] == 'index' for e in pl['p']):
+            return None
+        return copy.deepcopy(pl)
+    if rv['k'] == 'use' and rv['op'].get('k') in ('move', 'copy') and not rv['op']['place']['p']:
+        return _borrowed_place(body, rv['op']['place']['l'], depth + 1)
+    return None
+
+
 def inline_call(caller, bi, callee):
     """Replace the call terminating block `bi` of `caller` (json) by the body of `callee` (json)."""
     term = caller['blocks'][bi]['term']
@@ -213,6 +256,30 @@ def inline_call(caller, bi, callee):
             if not nb.get('cleanup'):
                 ret_blocks.append(off_b + ci)
         caller['blocks'].append(nb)
+    # a parameter that is a borrow of a caller place (`&mut self.field`, `&self.x.y`) IS that place inside the callee:
+    # `*param = v` becomes `self.field = v`, so that rules keyed on the field see the store where it now happens
+    subst = {}
+    for i, a in enumerate(term['args']):
+        if a.get('k') not in ('move', 'copy') or a['place']['p']:
+            continue
+        pl = _borrowed_place(caller, a['place']['l'])
+        if pl is not None:
+            subst[off_l + 1 + i] = pl
+    if subst:
+        def fix(o):
+            if isinstance(o, dict):
+                if 'l' in o and 'p' in o and isinstance(o['p'], list) and o['l'] in subst and o['p'] and o['p'][0].get('k') == 'deref':
+                    base = subst[o['l']]
+                    o['l'] = base['l']
+                    o['p'] = copy.deepcopy(base['p']) + o['p'][1:]
+                for v in o.values():
+                    fix(v)
+            elif isinstance(o, list):
+                for x in o:
+                    fix(x)
+        for nb in caller['blocks'][off_b:]:
+            fix(nb['stmts'])
+            fix(nb['term'])
     if dest is not None and not dest['p'] and target is not None:
         _specialise_returns(caller, off_b, off_b + len(callee['blocks']), ret_blocks, off_l, dest['l'], target, strip_crate(callee.get('ret_ty') or ''))
     for nb in caller['blocks']:
@@ -911,7 +978,18 @@ def desugar_adaptors(j):
                     pl = new_local(payload_ty[var])
                     stmts.append(asg({'l': pl, 'p': []}, {'k': 'use', 'op': {'k': 'move', 'place': proj(var)}}))
                 arm_index[var] = nb0 + len(new_blocks)
-                if act in ('f', 'f0'):
+                ctor = None
+                if act == 'f' and env is None and callee is not None:
+                    mc = _re.match(r'^std::(option::Option|result::Result)::<.*>::(Some|Ok|Err)$', strip_crate(callee.get('name', '')))
+                    if mc:
+                        ctor = ('std::' + mc.group(1), mc.group(2), _VIDX[('std::' + mc.group(1), mc.group(2))])
+                if ctor is not None:
+                    # `.map(Some)` / `.map_err(Err)`: the function is a variant constructor, i.e. an aggregate
+                    inner = new_local('_')
+                    st2 = stmts + [asg({'l': inner, 'p': []}, agg(ctor, [mv(pl)]))]
+                    rv = agg(wrap, [mv(inner)]) if wrap is not None else {'k': 'use', 'op': mv(inner)}
+                    new_blocks.append({'cleanup': False, 'stmts': st2 + [asg(copy.deepcopy(dest), rv)], 'term': goto(target)})
+                elif act in ('f', 'f0'):
                     cargs, pre = call_args(pl if act == 'f' else None)
                     if wrap is None:
                         new_blocks.append({'cleanup': False, 'stmts': stmts + pre, 'term': {'k': 'call', 'callee': callee, 'args': cargs, 'dest': copy.deepcopy(dest), 'target': target, 'unwind': None, 'span': span, 'exp': exp, 'fn_span': span, 'fn_exp': exp}})
@@ -949,7 +1027,7 @@ def desugar_adaptors(j):
                         off_l = len(b['locals'])
                         fb = len(b['blocks'])
                         inline_call(b, first_new + k_, cb)
-                        _subst_captures(b, fb, off_l + 1, caps or [], strip_crate(cb['locals'][1]['ty']).startswith('&'))
+                        _subst_captures(b, fb, off_l + 1, caps or [], strip_crate(cb['locals'][1]['ty']).startswith('&'), env_local=env)
                         _forget_closure_value(blk, env)
                         j.setdefault('_closures_inlined', []).append(cb['id'])
             # the arms that build a known variant jump straight to the arm the caller's `?` / match selects
@@ -965,15 +1043,40 @@ def desugar_adaptors(j):
     count += desugar_iter_adaptors(j, by_id)
     if count:
         for b in j.get('instances', []):
+            _respecialise(b)
             prune_unreachable(b)
         drop_inlined_closures(j)
     return count
 
 
-def _subst_captures(b, first_block, env_param, caps, by_ref):
+def _respecialise(b):
+    """Chained adaptors (`x.map(f).ok_or(e)`): once all of them are written out, an arm that builds a known
+    variant and then falls into the next adaptor's test jumps straight to the arm that test selects."""
+    n0 = len(b['blocks'])
+    for bi in range(n0):
+        blk = b['blocks'][bi]
+        if blk.get('cleanup') or blk['term']['k'] != 'goto' or blk['term'].get('inl') == 'resolved' or not blk['stmts']:
+            continue
+        last = blk['stmts'][-1]
+        if not (last.get('dsg') and last.get('k') == 'assign' and not last['place']['p'] and last['rv'].get('k') == 'agg' and last['rv'].get('adt') in (_R, _O) and last['rv'].get('variant')):
+            continue
+        D = last['place']['l']
+        cont = _parse_cont(b, blk['term']['target'], D)
+        if cont is not None and cont['shape'] in ('try', 'match'):
+            _specialise_block(b, blk, ('adt', last['rv']['adt'], last['rv']['variant'], last['rv']['variant_idx']), cont, D)
+
+
+def _subst_captures(b, first_block, env_param, caps, by_ref, env_local=None):
     """In the blocks of an inlined closure body, a read of capture i through the environment parameter
     (`(*_env).i` / `_env.i`) is the captured local itself."""
     def fix_place(pl):
+        if env_local is not None and pl['l'] == env_local and pl['p'] and pl['p'][0]['k'] == 'field':
+            # `(*env_param)` was already replaced by the closure value itself (borrowed-place parameters)
+            p = pl['p']
+            if p[0]['i'] < len(caps) and caps[p[0]['i']] is not None:
+                pl['l'] = caps[p[0]['i']]
+                pl['p'] = p[1:]
+            return
         if pl['l'] != env_param:
             return
         p = pl['p']
@@ -1137,7 +1240,7 @@ def desugar_iter_adaptors(j, by_id):
             off_l = len(b['locals'])
             first_new = len(b['blocks'])
             inline_call(b, Body, cb)
-            _subst_captures(b, first_new, off_l + 1, caps or [], by_ref)
+            _subst_captures(b, first_new, off_l + 1, caps or [], by_ref, env_local=cl)
             _forget_closure_value(blk, cl)
             j.setdefault('_closures_inlined', []).append(cb['id'])
     return count
@@ -1167,10 +1270,52 @@ def drop_inlined_closures(j):
             inst.remove(b)
 
 
+def alias_consts(j):
+    """A named integer constant that did not exist in the confirmed tree and has the value of exactly one constant
+    that did (`const FILE_LEN: u64 = FILE_NUM_BYTES as u64`, a module-level copy of a function-local HEADER_LEN)
+    is read as that constant: rules name the constants of the confirmed tree."""
+    if j.get('crate') != 'mrecordlog' or not os.path.exists(KNOWN_PATH):
+        return {}
+    kc = set(json.load(open(KNOWN_PATH)).get('consts', []))
+    if not kc:
+        return {}
+    cur = {}
+    for c in j.get('consts', []):
+        if c.get('value') is not None:
+            cur.setdefault(strip_crate(c['path']), c['value'])
+    by_val = {}
+    for pth, v in cur.items():
+        if pth in kc:
+            by_val.setdefault(str(v), []).append(pth)
+    alias = {}
+    for pth, v in cur.items():
+        if pth in kc or '__CALLSITE' in pth:
+            continue
+        cands = by_val.get(str(v), [])
+        if len(cands) == 1:
+            alias[pth] = cands[0]
+    if not alias:
+        return {}
+    def visit(o):
+        if isinstance(o, dict):
+            if o.get('k') == 'const' and o.get('named') and strip_crate(o['named']) in alias:
+                o['alias_of'] = o['named']
+                o['named'] = alias[strip_crate(o['named'])]
+            for v in o.values():
+                visit(v)
+        elif isinstance(o, list):
+            for x in o:
+                visit(x)
+    for b in j.get('instances', []) + j.get('poly', []):
+        visit(b['blocks'])
+    return alias
+
+
 def inline_unknown(j, known):
     """Mutates facts json j. Returns dict(inlined=[paths], dropped=[paths])."""
     if known is None or j.get('crate') != 'mrecordlog':
         return {'inlined': [], 'dropped': []}
+    consts_aliased = alias_consts(j)
     n_desugared = desugar_adaptors(j)
     types_renamed = rename_types_back(j, load_known_adts())
     known, renamed = effective_known(j, known)
@@ -1212,4 +1357,4 @@ def inline_unknown(j, known):
         for b in drop:
             report['dropped'].add(strip_crate(b['path']))
             poly.remove(b)
-    return {'inlined': sorted(report['inlined']), 'dropped': sorted(report['dropped']), 'renamed': renamed, 'fields_renamed': fields_renamed, 'types_renamed': types_renamed, 'adaptors_desugared': n_desugared}
+    return {'inlined': sorted(report['inlined']), 'dropped': sorted(report['dropped']), 'renamed': renamed, 'fields_renamed': fields_renamed, 'types_renamed': types_renamed, 'adaptors_desugared': n_desugared, 'consts_aliased': consts_aliased}
